@@ -201,6 +201,13 @@ def dnf_common(dnf):
     return tuple(l for l in dnf[0] if all(l in c for c in dnf))
 
 
+class _Term:
+    """A term standing where a Python value is expected (the single element of a display being unrolled)."""
+
+    def __init__(self, t):
+        self.t = t
+
+
 @dataclass
 class State:
     env: dict
@@ -601,6 +608,10 @@ class SymEval:
             info["iter"] = it
             seq = self.concrete_seq(it)
             do_unroll = self.unroll(s, seq) if callable(self.unroll) else (self.unroll and seq is not None and len(seq) <= self.unroll)
+            single = it[1][0] if it[0] in ("tuple", "list") and len(it[1]) == 1 and it[1][0][0] != "star" else (self.lift(seq[0]) if seq is not None and len(seq) == 1 else None)
+            if single is not None and not do_unroll:
+                # a loop over exactly one element is its body, once (whatever the unrolling policy)
+                seq, do_unroll = [_Term(single)], True
             if seq is not None and 0 < len(seq) <= 8 and _is_search_loop(s) and (do_unroll or not callable(self.unroll)):
                 # `for x in CONST: [...]; if test(x): ...; break` (+ else): an if / elif chain over the constant elements
                 info["unrolled"] = len(seq)
@@ -646,14 +657,15 @@ class SymEval:
             n, okk = 0, True
             while True:
                 t = self.truth(self.cond(self.expr(s.test, trial)))
-                if t is None or n > limit:
+                if t is None or n > limit or len(self.effects) - mark_effects > 3000 or len(trial.dnf) > 128:
+                    # not a constant trip count (or one whose unrolling is out of proportion: a test that stays true is an endless loop, not a count)
                     okk = False
                     break
                 if t is False:
                     break
                 trial = self.block(s.body, trial)
                 n += 1
-                if trial.dead:
+                if trial.dead or _ite_depth(trial.env) > 24:
                     okk = False
                     break
             if okk and (not callable(self.unroll) or self.unroll(s, list(range(n)))):
@@ -821,6 +833,8 @@ class SymEval:
     # ------------------------------------------------------------------ expressions
     def lift(self, v):
         """Python constant -> term."""
+        if isinstance(v, _Term):
+            return v.t
         if isinstance(v, Unknown):
             return top(v.why)
         if isinstance(v, Ref):
@@ -1139,6 +1153,12 @@ class SymEval:
         return top(type(e).__name__)
 
     def index(self, base, idx):
+        if base[0] == "upd" and base[1][0] in ("dict", "upd"):
+            # reading back a key of a dict that was just built item by item: the value stored last under that key
+            if idx == base[2]:
+                return base[3]
+            if is_const(idx) and is_const(base[2]):
+                return self.index(base[1], idx)
         if idx[0] == "ite" and is_const(idx[2]) and is_const(idx[3]):
             return self.ite(idx[1], self.index(base, idx[2]), self.index(base, idx[3]))
         if idx[0] == "cmp" and base[0] != "gval" and not is_const(base):
@@ -1556,6 +1576,22 @@ def _const_leaves(t, depth=0) -> bool:
     if is_const(t):
         return True
     return t[0] == "ite" and depth < 12 and _const_leaves(t[2], depth + 1) and _const_leaves(t[3], depth + 1)
+
+
+def _ite_depth(env) -> int:
+    """Deepest nesting of alternatives among the values of an environment (shared sub-terms visited once)."""
+    memo: dict = {}
+
+    def d(t):
+        if not isinstance(t, tuple) or not t or t[0] != "ite":
+            return 0
+        k = id(t)
+        if k not in memo:
+            memo[k] = 0
+            memo[k] = 1 + max(d(t[2]), d(t[3]))
+        return memo[k]
+
+    return max((d(v) for v in env.values()), default=0)
 
 
 def _some_const_leaf(t, depth=0) -> bool:
